@@ -1180,6 +1180,24 @@ class ModelsMixin(object):
             return None
         self.unsupported("method %s of a symbolic sequence" % name)
 
+    def _clone_struct(self, st, memo):
+        k = st[0]
+        if k == "snoc":
+            base, xo = st[1], st[2]
+            if getattr(xo, "mutable_elem", False):
+                if xo.ref is None:
+                    base.elem.adopt(self, xo)
+                xo = self.clone(xo, memo, deep=False)
+            return ("snoc", SSeq(base.term, base.elem, self._clone_struct(base.struct, memo)), xo)
+        if k == "concat":
+            a, b = st[1], st[2]
+            return ("concat", SSeq(a.term, a.elem, self._clone_struct(a.struct, memo)),
+                    SSeq(b.term, b.elem, self._clone_struct(b.struct, memo)))
+        if k == "alias":
+            a = st[1]
+            return ("alias", SSeq(a.term, a.elem, self._clone_struct(a.struct, memo)))
+        return st
+
     def seq_assume_valid(self, term, elem):
         return None
 
@@ -1204,9 +1222,16 @@ class ModelsMixin(object):
                     o.idict[k] = self.clone(x, memo) if deep else x
             o.ref = v.ref
             o.frozen = v.frozen
+            o.elem_kind = v.elem_kind          # (a clone is a snapshot: never `mutable_elem`)
             return o
         if isinstance(v, SSeq):
-            o = SSeq(v.term, v.elem, v.struct)
+            from .values import _struct_dynamic
+            if _struct_dynamic(v.struct, 0):
+                # snapshot of a list that names mutable members: fix the term as it is now and let the
+                # structure refer to snapshots of those members (folds over the OLD list see the old content)
+                o = SSeq(v.term, v.elem, self._clone_struct(v.struct, memo))
+            else:
+                o = SSeq(v.term, v.elem, v.struct)
             memo[id(v)] = o
             return o
         if type(v).__name__ == "SVSeq":
